@@ -176,7 +176,8 @@ def _join_case(args):
             ev = gen.make_events(n, seed=seed + 10 * j, special=False,
                                  feats=feats)
             date, tm = TIMES[tkey]
-            p = d / f"in{j}.rtdc"
+            # the given order is the reverse of the path order
+            p = d / f"in{9 - j}_{'zyxwv'[j]}.rtdc"
             gen.write_rtdc(p, ev, meta=gen.complete_meta(
                 n, date=date, time=tm, run_index=1,
                 run_id=f"vf-run-{j}"), logs={f"log{j}": [f"line of {j}"]})
